@@ -37,3 +37,15 @@ let desc = { fresh = tls_fresh;
   render_panics = tls_render_panics; of_spec; junk_len = 4000 }
 let run id ops out = run_generic desc id ops out
 let registered = Registry.register "Ltls" run
+let coq_th (h : thdr) = Printf.sprintf "(mkTh %s %s %s)" (coq_z h.th_ct) (coq_z h.th_ver) (coq_z h.th_len)
+let coq_ch (c : tch) = Printf.sprintf "(mkCh %s %s %s %s %s %s %s %s %s %s %s %s %s)" (coq_z c.ch_type) (coq_z c.ch_len) (coq_z c.ch_pver) (coq_zlist c.ch_random)
+  (coq_z c.ch_sidlen) (coq_zlist c.ch_sid) (coq_z c.ch_cslen) (coq_zlist c.ch_cs) (coq_z c.ch_cmlen) (coq_zlist c.ch_cm) (coq_z c.ch_extlen) (coq_zlist c.ch_ext) (coq_zlist c.ch_sni)
+let coq_rec (r : trec) = match r with
+  | RCcs (h, m) -> Printf.sprintf "(RCcs %s %s)" (coq_th h) (coq_z m)
+  | RHs (h, c) -> Printf.sprintf "(RHs %s %s)" (coq_th h) (coq_ch c)
+  | RApp (h, p) -> Printf.sprintf "(RApp %s %s)" (coq_th h) (coq_zlist p)
+  | RAlert (h, l, d, e) -> Printf.sprintf "(RAlert %s %s %s %s)" (coq_th h) (coq_z l) (coq_z d) (coq_zlist e)
+let coq_tls (l : tls) = Printf.sprintf "(mkTls %s %s %s %s %s %s)" (coq_zlist l.tl_contents) (coq_zlist l.tl_payload) (coq_list coq_rec l.tl_ccs)
+  (coq_list coq_rec l.tl_hs) (coq_list coq_rec l.tl_app) (coq_list coq_rec l.tl_alert)
+let registered_coq = Registry.register_coq "Ltls" ("From GP Require Import Base LtlsModel.\n",
+  Lmidutil.to_coq_dec ~fresh_name:"tls_fresh" ~dec_name:(fun _ -> "tls_decode_into") ~pr:coq_tls ~decode:(fun _ -> tls_decode_into) ~fresh:tls_fresh)
